@@ -177,8 +177,17 @@ const NAMES: [&str; 8] = ["a", "b", "c", "item", "", "é", "x y", "val"];
 
 fn mk(name: &str, dt: DataType, nullable: bool) -> Field { Field { name: name.to_string(), data_type: dt, nullable, metadata: Default::default() } }
 
+pub static CORE_ONLY: std::sync::atomic::AtomicBool = std::sync::atomic::AtomicBool::new(false);
+
 pub fn gen_field(rng: &mut Rng, name: &str, depth: usize) -> Field {
     use DataType as T;
+    if CORE_ONLY.load(std::sync::atomic::Ordering::Relaxed) {
+        let nullable = rng.chance(1, 2);
+        let leaf = depth == 0 || rng.chance(2, 5);
+        let dt = if leaf { match rng.below(13) { 0 | 1 => T::Boolean, 2 => T::Int8, 3 => T::Int16, 4 => T::Int32, 5 => T::Int64, 6 => T::UInt8, 7 => T::UInt16, 8 => T::UInt32, 9 => T::UInt64, 10 | 11 => T::Utf8, _ => T::LargeUtf8 } }
+            else { match rng.below(4) { 0 | 1 => T::Struct({ let n = 1 + rng.below(3); let mut names: Vec<&str> = NAMES.to_vec(); rng.shuffle(&mut names); (0..n).map(|i| gen_field(rng, names[i], depth - 1)).collect() }), 2 => T::List(Box::new(gen_field(rng, "element", depth - 1))), _ => T::LargeList(Box::new(gen_field(rng, "element", depth - 1))) } };
+        return mk(name, dt, nullable);
+    }
     let nullable = rng.chance(1, 2);
     let leaf = depth == 0 || rng.chance(1, 2);
     let dt = if leaf {
@@ -203,7 +212,9 @@ pub fn gen_field(rng: &mut Rng, name: &str, depth: usize) -> Field {
         }
     };
     let nullable = match &dt { T::Null => true, T::Union(..) => false, _ => nullable };
-    mk(name, dt, nullable)
+    let mut f = mk(name, dt, nullable);
+    if rng.chance(1, 6) { f.metadata.insert("origin".into(), format!("m{}", rng.below(100))); }
+    f
 }
 
 pub fn gen_schema(rng: &mut Rng) -> Vec<Field> {
@@ -286,7 +297,7 @@ pub fn gen_val(rng: &mut Rng, f: &Field, inj: &mut Inject) -> Val {
 pub fn gen_record(rng: &mut Rng, fs: &[Field], inj: &mut Inject) -> Val {
     let class = rng.below(2) as u8;
     match rng.below(10) {
-        0 => Val::Tuple(fs.iter().map(|f| gen_val(rng, f, inj)).collect()),
+        0 => { let mut v: Vec<Val> = fs.iter().map(|f| gen_val(rng, f, inj)).collect(); if rng.chance(1, 6) { v.push(Val::Bool(true)); } Val::Tuple(v) }
         1 => { let mut v: Vec<Val> = fs.iter().map(|f| gen_val(rng, f, inj)).collect(); if rng.chance(1, 3) { v.push(Val::Int(IK::I32, 99)); } Val::TupleStruct(v) }
         2 | 3 => { // map with string keys
             let mut kvs: Vec<(Val, Val)> = vec![];
@@ -337,3 +348,8 @@ fn gen_invalid(rng: &mut Rng, f: &Field, inj: &mut Inject) -> Val {
 }
 
 pub fn struct_field(fields: &[Field]) -> Field { mk("$", DataType::Struct(fields.to_vec()), false) }
+
+/// bit-exact equality of arrays (floats by bit pattern; `PartialEq` would say NaN != NaN)
+pub fn arrays_eq(a: &[Array], b: &[Array]) -> bool {
+    a.len() == b.len() && a.iter().zip(b).all(|(x, y)| x.data_type() == y.data_type() && array_coq(x) == array_coq(y))
+}
